@@ -117,6 +117,9 @@ type pubNodeBase struct {
 
 	// msgChan is an internal channel where messages from msgFetcher are collected
 	msgChan chan *Message
+	// stopped is closed by cleanup, before it takes the lock, to signal that
+	// the run loop does not receive from msgChan anymore.
+	stopped chan struct{}
 }
 
 // Trigger sets up 2 goroutines, one that listens to the external error channel
@@ -145,6 +148,7 @@ func (n *pubNodeBase) Trigger(
 
 	n.running = true
 	n.msgChan = make(chan *Message)
+	n.stopped = make(chan struct{})
 	internalErrChan := make(chan error)
 
 	if externalErrChan != nil {
@@ -214,12 +218,21 @@ func (n *pubNodeBase) InjectControlMessage(ctx context.Context, msgType ControlM
 	select {
 	case <-ctx.Done():
 		return ctx.Err()
+	case <-n.stopped:
+		// The run loop already returned and nobody receives from msgChan
+		// anymore. We are holding the lock cleanup needs, so waiting any longer
+		// would deadlock with it.
+		return cerrors.New("tried to inject control message but PubNode stopped running")
 	case n.msgChan <- &Message{controlMessageType: msgType, Record: r}:
 		return nil
 	}
 }
 
 func (n *pubNodeBase) cleanup(ctx context.Context, logger log.CtxLogger) {
+	// Unblock a concurrent InjectControlMessage before waiting for the lock it
+	// holds while trying to hand a message to the (now finished) run loop.
+	close(n.stopped)
+
 	n.lock.Lock()
 	defer n.lock.Unlock()
 
